@@ -41,6 +41,33 @@ add("C07", "fault_enumeration",
     "deterministic simulation: crash-point enumeration over the recorded event trace, kill-tree fault + resume, golden equality",
     qt=1200, tt=3000)
 
+_SWEEP_NOTE = ("Trusted: the oracle's independent parsers and the generator's ground truth; the distributed half of the statement "
+               "(nothing lost, duplicated, mislabelled or made non-unique by fan-out, merge, resume, placement or hash seed) is "
+               "what the simulator explores; the input half (all annotations and read sets) is only sampled by the workload "
+               "generator.")
+_SWEEP_TEXT = ("Seeded search: complete simulated executions of the real pipeline over random workloads x cells (hash seed, "
+               "--threads, SimPool placement/interleaving, memory mode, keep_tmp, buffer size), a quarter of them killed at a "
+               "seeded file-system event and resumed; the final outputs of every run are judged by this property's own oracle. ")
+add("C02", "exploration", _SWEEP_TEXT + "Oracle: every cell of the gene/transcript/transcript-model tables is 0 or the documented "
+    "weighted sum of the reported assignments, per-read total <= 1, __ambiguous/__no_feature/__not_aligned, TPM = rescaled counts; "
+    "all five strategies for genes and transcripts x both normalisations are swept.", _SWEEP_NOTE,
+    "deterministic simulation sweep (schedules, hash seeds, crash+resume) + counts-model oracle over reported assignments")
+add("C03", "exploration", _SWEEP_TEXT + "Oracle: GTF structure (exons sorted, disjoint, in bounds; transcript/gene records once and "
+    "consistent), reference ids reproduce reference structure, extended = reference + novel(models).", _SWEEP_NOTE +
+    " Weakest simulation case: only 'reported, and reported once' depends on history/placement; coordinate clauses are by-products.",
+    "deterministic simulation sweep (schedules, hash seeds, multi-experiment history, crash+resume) + GTF structure oracle")
+add("C05", "exploration", _SWEEP_TEXT + "Oracle: the set of reported read ids equals the generator's set of reads with a mapped, "
+    "non-supplementary MAPQ-60 record (both memory back-ends), no identical records, log statistics = input record counts.",
+    _SWEEP_NOTE + " Deep (>1024 reads / >32 kb) loci are not generated in quick runs.",
+    "deterministic simulation sweep (placement, memory back-end, crash+resume) + read-accounting oracle against generator ground truth")
+add("C09", "exploration", _SWEEP_TEXT + "Oracle: run does not abort on ungroupable reads, matrix == linear triples, groups sum to the "
+    "ungrouped value, every (feature, group) cell equals the documented weighting of the reads whose ground-truth group it is; "
+    "modes tag/read_id/file/file_name x formats both/matrix/linear.", _SWEEP_NOTE,
+    "deterministic simulation sweep (hash seeds, placement, stage hand-over) + grouped-table oracle against generator ground truth")
+add("C17", "exploration", _SWEEP_TEXT + "Oracle: ids unique per file, novel ids disjoint from reference ids, exon_id <-> exon bijection "
+    "across both GTFs and all chromosomes, reference exon_ids preserved; workloads include annotations with IsoQuant-style ids.",
+    _SWEEP_NOTE, "deterministic simulation sweep (placement of chromosomes on workers, hash seeds, resume) + identifier oracle")
+
 PENDING = {p: "simulation target (DESIGN.md sections 3-4) whose check is not registered in this revision yet"
            for p in ["C02", "C03", "C05", "C07", "C08", "C09", "C10", "C12", "C15", "C17", "C18", "C20"]}
 
